@@ -129,7 +129,7 @@ def key_of(v): return '%s:%s' % (v['kind'], v.get('shape', 'lexicon').split('#')
 def main(tier, seed):
     from framework import Runner, Query
     R = Runner('C11', tier, seed); R.setup()
-    R.blocks = models_str.STD_BLOCKS if tier == 'quick' else None       # quick: names over Latin, CJK, fullwidth and pictograph blocks; thorough: all of Unicode
+    R.blocks = models_str.STD_BLOCKS       # symbolic name chars range over Latin..Latin Ext-B, CJK punctuation + ideographs, fullwidth forms, pictographs (thorough adds an all-Unicode query where noted)
     R.assumptions += ['reference = my transcription (checks/peg.py) of the pest grammar in README.en.md, with Unicode categories from Python\'s unicodedata',
                       'the recogniser runs on one solver witness per explored path (class of names distinguished by the implementation), names restricted to letters/digits/_/inner -']
     R.run_query(Query('lexicon', 'c11', 'path_lexicon', [dict()], 'all ASCII keywords of both format instances vs the OpenNARS-compatible lexicon'), confirm, key_of)
